@@ -53,13 +53,27 @@ def discharge(ob, timeout_ms=10000, seed=0, use_cvc5=True, strings=False, on_mod
     """-> dict(name, result in {unsat, sat, unknown}, backend, seconds, model?)"""
     rec = dict(name=ob.name, kind=ob.kind)
     total = 0.0
-    # attempt 1: E-matching only (fast refutations of the negated goal)
-    s, r, dt = _z3_check(ob.hyps, ob.goal, min(timeout_ms, 4000), mbqi=False, seed=seed)
+    # attempt 1: z3, E-matching only (fast refutations of the negated goal)
+    s, r, dt = _z3_check(ob.hyps, ob.goal, min(timeout_ms, 3000), mbqi=False, seed=seed)
     total += dt
     if r == z3.unsat:
         rec.update(result="unsat", backend="z3", seconds=round(total, 3))
         return rec
-    # attempt 2: default configuration (mbqi on), full budget
+    reason = ""
+    smt2 = None
+    # attempt 2: cvc5 (enumerative instantiation) with a short budget
+    if use_cvc5 and os.path.exists(CVC5):
+        try:
+            smt2 = s.to_smt2()
+            res, dt, err = _cvc5_check(smt2, min(timeout_ms, 5000), strings=strings)
+            total += dt
+            if res == "unsat":
+                rec.update(result="unsat", backend="cvc5", seconds=round(total, 3))
+                return rec
+            reason += "cvc5: %s %s" % (res, err)
+        except Exception as e:
+            reason += "cvc5 error: %s" % e
+    # attempt 3: z3 default configuration (mbqi on), full budget; models come from here
     s, r, dt = _z3_check(ob.hyps, ob.goal, timeout_ms, mbqi=True, seed=seed)
     total += dt
     if r == z3.unsat:
@@ -74,21 +88,17 @@ def discharge(ob, timeout_ms=10000, seed=0, use_cvc5=True, strings=False, on_mod
             rec["model"] = {"error": str(e)}
         rec.update(result="sat", backend="z3", seconds=round(total, 3))
         return rec
-    reason = s.reason_unknown()
-    if use_cvc5 and os.path.exists(CVC5):
-        try:
-            smt2 = s.to_smt2()
-            res, dt, err = _cvc5_check(smt2, timeout_ms, strings=strings)
-            total += dt
-            if res == "unsat":
-                rec.update(result="unsat", backend="cvc5", seconds=round(total, 3))
-                return rec
-            if res == "sat":
-                rec.update(result="sat", backend="cvc5", seconds=round(total, 3), model={})
-                return rec
-            reason += " | cvc5: %s %s" % (res, err)
-        except Exception as e:
-            reason += " | cvc5 error: %s" % e
+    reason = "z3: " + s.reason_unknown() + " | " + reason
+    # attempt 4: cvc5 with the full budget
+    if use_cvc5 and smt2 is not None and timeout_ms > 5000:
+        res, dt, err = _cvc5_check(smt2, timeout_ms, strings=strings)
+        total += dt
+        if res == "unsat":
+            rec.update(result="unsat", backend="cvc5", seconds=round(total, 3))
+            return rec
+        if res == "sat":
+            rec.update(result="sat", backend="cvc5", seconds=round(total, 3), model={})
+            return rec
     rec.update(result="unknown", backend="z3+cvc5" if use_cvc5 else "z3", seconds=round(total, 3), reason=reason)
     return rec
 
